@@ -104,7 +104,11 @@ func genC18(t *simrt.Tape, tier string) Scenario {
 	// while the first interceptor runs - the deadline of the caller passing mid-chain; only an interceptor's error aborts the chain)
 	verbs := []string{"Get", "Head", "Options", "Delete", "Post", "Put", "Patch", "API", "APIDelete", "APIPost", "CtxCancelled", "CtxCancelledMidChain"}
 	for i := 0; i < n; i++ {
-		switch t.ChooseW([]int{4, 2, 1, 2, 6, 1, 1}) {
+		switch t.ChooseW([]int{4, 2, 1, 2, 6, 1, 1, 1}) {
+		case 7:
+			// the user decorates the transport of the client the SimpleHTTP currently uses (a logging/metrics wrapper
+			// around whatever transport is installed) without telling the SimpleHTTP
+			sc.Steps = append(sc.Steps, c18Step{Kind: "Decorate"})
 		case 6:
 			// a request during which one interceptor unregisters another one that comes later in the chain
 			// (a one-shot "login" interceptor retired by the "auth" interceptor, say)
@@ -156,6 +160,20 @@ func (sc *c18Scenario) Nontrivial(res *simrt.Result) bool {
 func (sc *c18Scenario) Signature(res *simrt.Result) string {
 	b, _ := json.Marshal(sc)
 	return string(b)
+}
+
+// c18Decorator is a user's pass-through wrapper around whatever transport a client had; it refuses to be part of a cycle
+type c18Decorator struct {
+	next   http.RoundTripper
+	rounds *int
+}
+
+func (d *c18Decorator) RoundTrip(req *http.Request) (*http.Response, error) {
+	*d.rounds++
+	if *d.rounds > 30 {
+		panic("c18: one request passed the same decorated transport more than 30 times (a cycle)")
+	}
+	return d.next.RoundTrip(req)
 }
 
 type c18Stub struct {
@@ -323,8 +341,11 @@ func (sc *c18Scenario) Run(s *simrt.Sim) {
 		err error
 	}
 	var reusedReq *http.Request
+	rounds := 0
+	decorated := map[int]bool{}
 	doReq := func(verb string) (*Op, error) {
 		var rerr error
+		rounds = 0
 		op := h.Do("main", verb, nil, func() (interface{}, error) {
 			url := "http://c18.example.test/x"
 			body := func() io.Reader { return bytes.NewReader([]byte(`{"a":1}`)) }
@@ -433,15 +454,27 @@ func (sc *c18Scenario) Run(s *simrt.Sim) {
 		case "Clear":
 			model = nil
 			h.Do("main", "ClearInterceptor", nil, func() (interface{}, error) { sh.ClearInterceptor(); return nil, nil })
-		case "SetClient":
-			if sc.DefTwin {
+		case "Decorate":
+			c := sh.GetHTTPClient()
+			if sc.DefTwin || c == nil || c.Transport == nil {
 				continue
+			}
+			for k := range clients {
+				if clients[k] == c {
+					decorated[k] = true
+				}
+			}
+			c.Transport = &c18Decorator{next: c.Transport, rounds: &rounds}
+			sc.probes["transport-decorated-behind-the-back-of-the-SimpleHTTP"]++
+		case "SetClient":
+			if sc.DefTwin || decorated[st.Cli] {
+				continue // (a client whose decorated transport already leads to this SimpleHTTP is not handed over again)
 			}
 			curCli = st.Cli
 			c := clients[st.Cli]
 			h.Do("main", "SetHTTPClient", st.Cli, func() (interface{}, error) { sh.SetHTTPClient(c); return nil, nil })
 		case "SwapTransport":
-			if sc.DefTwin {
+			if sc.DefTwin || decorated[st.Cli] {
 				continue
 			}
 			curCli = st.Cli
